@@ -470,8 +470,71 @@ fn pwhash_strings(rng: &mut Rng, thorough: bool) -> Vec<String> {
         }
         v.push(chars.into_iter().collect());
     }
+    v.extend(pwhash_param_segments(thorough).into_iter().enumerate().map(|(j, seg)| {
+        let alg = if j % 5 == 4 { "argon2i" } else { "argon2id" };
+        format!("${}$v=19${}${}${}", alg, seg, salt, hash)
+    }));
     v.retain(|s| cheap(s));
     v
+}
+
+/// Parameter segments of a password-hash string in which each of the items `m=`, `t=`, `p=` (in every order) is, in turn,
+/// well formed / not the start of a comma-separated item (prefix characters, missing or swapped separator) / without a value
+/// / duplicated / malformed -- one item at a time, every pair of items, and (thorough) all three.
+fn pwhash_param_segments(thorough: bool) -> Vec<String> {
+    const NDEC: usize = 17;
+    // (separator written before the item, item text)
+    fn decorate(d: usize, key: char, val: &str, other: char) -> (&'static str, String) {
+        let kv = format!("{}={}", key, val);
+        match d {
+            0 => (",", kv),
+            1 => (",", format!("x{}", kv)),
+            2 => (",", format!(" {}", kv)),
+            3 => (",", format!("{}{}", key, kv)),
+            4 => (",", format!("{}{}", other, kv)),
+            5 => (",", format!("{}=", key)),
+            6 => (",", kv.to_uppercase()),
+            7 => ("", kv),
+            8 => (";", kv),
+            9 => (" ", kv),
+            10 => (",,", kv),
+            11 => (",", format!("{},{}", kv, kv)),
+            12 => (",", format!("{}=={}", key, val)),
+            13 => (",", format!("{}=+{}", key, val)),
+            14 => (",", format!("{} ", kv)),
+            15 => (",", format!("{}=-{}", key, val)),
+            _ => (",", format!("{}={}x", key, val)),
+        }
+    }
+    let orders: [[usize; 3]; 6] = [[0, 1, 2], [0, 2, 1], [1, 0, 2], [1, 2, 0], [2, 0, 1], [2, 1, 0]];
+    let items: [(char, &str); 3] = [('m', "8"), ('t', "3"), ('p', "1")];
+    let mut out = Vec::new();
+    for order in orders {
+        for d0 in 0..NDEC {
+            for d1 in 0..NDEC {
+                for d2 in 0..NDEC {
+                    let ds = [d0, d1, d2];
+                    let changed = ds.iter().filter(|d| **d != 0).count();
+                    if changed == 3 && !thorough {
+                        continue;
+                    }
+                    let mut seg = String::new();
+                    for (pos, idx) in order.iter().enumerate() {
+                        let (key, val) = items[*idx];
+                        let other = items[(*idx + 1) % 3].0;
+                        let (sep, text) = decorate(ds[pos], key, val, other);
+                        // (the first item's separator is written only when it is not the plain comma)
+                        if pos > 0 || ds[pos] >= 7 && ds[pos] <= 10 {
+                            seg.push_str(sep);
+                        }
+                        seg.push_str(&text);
+                    }
+                    out.push(seg);
+                }
+            }
+        }
+    }
+    out
 }
 
 /// Messages for the one-time key `polykey` whose final accumulator is p-2 .. 2^130+1 (see polymath.rs).
